@@ -71,6 +71,38 @@ func vfPair(wlo, whi int) vfObs {
 	return o
 }
 
+// vfPairNorm: the same pair for the models whose coefficients mix the three proportions (F84,
+// TN93): with a free total weight the division by the symbolic total makes the solver time out,
+// so here the subset of selected sites is enumerated (16 concrete cases) and the weights of the
+// selected sites are constrained to sum to `total`: the proportions range over the grid of
+// multiples of 1/(2*total) of the simplex (faces included through the unselected sites).
+func vfPairNorm(total int) vfObs {
+	var o vfObs
+	o.s1 = []uint8{vfA, vfA, vfC, vfA}
+	o.s2 = []uint8{vfA, vfG, vfT, vfC}
+	o.sel = make([]bool, 4)
+	o.w = make([]float64, 4)
+	subset := nondetRange(0, 15)
+	var n [4]float64
+	for i := 0; i < 4; i++ {
+		o.sel[i] = subset&(1<<uint(i)) != 0
+		o.w[i] = nondetDyadic(2, 1, 2*total)
+		if o.sel[i] {
+			n[i] = o.w[i]
+		}
+	}
+	o.tot = n[0] + n[1] + n[2] + n[3]
+	if subset != 0 {
+		assume(o.tot == float64(total))
+	}
+	o.p1 = n[1] / o.tot
+	o.p2 = n[2] / o.tot
+	o.q = n[3] / o.tot
+	o.p = (n[1] + n[2] + n[3]) / o.tot
+	o.anydiff = n[1]+n[2]+n[3] > 0
+	return o
+}
+
 // vfNegLog is "-ln x", or its gamma replacement alpha*(x^(-1/alpha) - 1) (Jin & Nei 1990).
 func vfNegLog(x float64, gamma bool, alpha float64) float64 {
 	if gamma {
@@ -256,7 +288,7 @@ func vfEstF84(pts []vfFreq, alphas []float64, o vfObs) {
 // bounds: the 4-kind pair, each site selected or not, weights dyadic k/2 (k=1..8); frequencies at 3 sample points; plain and gamma with alpha in {1/2, 1, 2}; model parameters a,b,c set as published from the frequencies (their derivation by InitModel: H_C07_init_params)
 // outside: frequencies and alpha off the sample points (thorough twin adds 3+3); IEEE rounding is outside the claim: floats are exact reals; ln/pow uninterpreted (DESIGN.md §2.4)
 func H_C07_est_f84() {
-	vfEstF84(vfFreqPts, vfAlphas, vfPair(1, 8))
+	vfEstF84(vfFreqPts, vfAlphas, vfPairNorm(8))
 }
 
 // H_C07_est_f84_deep: as H_C07_est_f84 at more sample points.
@@ -264,7 +296,7 @@ func H_C07_est_f84() {
 // outside: IEEE rounding is outside the claim: floats are exact reals
 //verif: tier=thorough
 func H_C07_est_f84_deep() {
-	vfEstF84(vfFreqPtsThorough, vfAlphasThorough, vfPair(1, 40))
+	vfEstF84(vfFreqPtsThorough, vfAlphasThorough, vfPairNorm(20))
 }
 
 // ------------------------------------------------------------------------------------------ TN93
@@ -294,7 +326,7 @@ func vfEstTN93(pts []vfFreq, alphas []float64, o vfObs) {
 // bounds: the 4-kind pair, each site selected or not, weights dyadic k/2 (k=1..8); frequencies at 3 sample points; plain and gamma with alpha in {1/2, 1, 2}
 // outside: frequencies and alpha off the sample points (thorough twin adds 3+3); IEEE rounding is outside the claim: floats are exact reals; ln/pow uninterpreted (DESIGN.md §2.4)
 func H_C07_est_tn93() {
-	vfEstTN93(vfFreqPts, vfAlphas, vfPair(1, 8))
+	vfEstTN93(vfFreqPts, vfAlphas, vfPairNorm(8))
 }
 
 // H_C07_est_tn93_deep: as H_C07_est_tn93 at more sample points.
@@ -302,5 +334,5 @@ func H_C07_est_tn93() {
 // outside: IEEE rounding is outside the claim: floats are exact reals
 //verif: tier=thorough
 func H_C07_est_tn93_deep() {
-	vfEstTN93(vfFreqPtsThorough, vfAlphasThorough, vfPair(1, 40))
+	vfEstTN93(vfFreqPtsThorough, vfAlphasThorough, vfPairNorm(20))
 }
